@@ -43,7 +43,7 @@ use zcash_protocol::{
     memo::MemoBytes,
     value::{BalanceError, Zatoshis},
 };
-use zcash_script::script;
+use zcash_script::script::{self, Evaluable};
 use zcash_transparent::{
     address::{Script, TransparentAddress},
     builder::{SpendInfo, TransparentInputInfo, TransparentSigningSet},
@@ -1236,3 +1236,433 @@ fn check_tx(
     errs
 }
 
+
+// =================================================================================================
+// running one case
+// =================================================================================================
+
+fn signing_set(q: &J, m: &Mat) -> TransparentSigningSet {
+    let mode = q["keys"].as_str().unwrap();
+    let mut set = TransparentSigningSet::new();
+    for t in &m.tin {
+        let n = t.keys.len();
+        let pick: Vec<usize> = match (t.kind.as_str(), mode) {
+            ("pkh", "nopkh") => vec![],
+            ("pkh", _) => vec![0],
+            (_, "exact") => (n - t.k..n).collect(),
+            (_, "short") => (0..t.k - 1).collect(),
+            _ => (0..n).collect(),
+        };
+        for i in pick {
+            set.add_key(t.keys[i].0);
+        }
+    }
+    set
+}
+
+fn verifying_key(branch: BranchId) -> &'static orchard::circuit::VerifyingKey {
+    use orchard::circuit::{OrchardCircuitVersion as V, VerifyingKey};
+    use std::sync::OnceLock;
+    static A: OnceLock<VerifyingKey> = OnceLock::new();
+    static B: OnceLock<VerifyingKey> = OnceLock::new();
+    static C: OnceLock<VerifyingKey> = OnceLock::new();
+    match branch {
+        BranchId::Nu6_3 => C.get_or_init(|| VerifyingKey::build(V::PostNu6_3)),
+        BranchId::Nu6_2 => B.get_or_init(|| VerifyingKey::build(V::FixedPostNu6_2)),
+        _ => A.get_or_init(|| VerifyingKey::build(V::InsecurePreNu6_2)),
+    }
+}
+
+#[derive(Default)]
+struct Stats {
+    counts: BTreeMap<String, u64>,
+    sigs: BTreeSet<String>,
+}
+impl Stats {
+    fn inc(&mut self, k: &str) {
+        *self.counts.entry(k.to_string()).or_insert(0) += 1;
+    }
+}
+
+struct Opts {
+    seed: u64,
+    real_proofs: BTreeSet<usize>,
+}
+
+fn outcome_of<T, FE: std::fmt::Debug>(r: Result<Result<T, BErr<FE>>, String>) -> (J, Option<T>) {
+    match r {
+        Err(p) => (json!({"k": "panic", "amt": 0, "msg": p}), None),
+        Ok(Err(e)) => {
+            let (k, amt) = class_of(&e);
+            (json!({"k": k, "amt": amt}), None)
+        }
+        Ok(Ok(t)) => (got("ok", 0), Some(t)),
+    }
+}
+
+fn new_builder(q: &J, m: &Mat) -> B {
+    Builder::new(network(), BlockHeight::from_u32(m.height), build_config(q, m))
+}
+
+fn run_case<FR: FeeRule>(idx: usize, case: &J, rule: &FR, opts: &Opts, st: &mut Stats) -> Vec<String>
+where
+    FR::Error: std::fmt::Debug,
+{
+    let (q, x) = (&case["q"], &case["x"]);
+    let mut errs: Vec<String> = vec![];
+    let mut rng = ChaCha20Rng::seed_from_u64(opts.seed.wrapping_mul(0x9E37_79B9_7F4A_7C15) ^ (idx as u64));
+    let m = materialise(q, &mut rng);
+    let slice = q["slice"].as_str().unwrap();
+    st.inc(&format!("slice:{slice}"));
+    st.inc(&format!("spec:{}", x["k"].as_str().unwrap()));
+
+    // ---- adds --------------------------------------------------------------------------------
+    let mut b = new_builder(q, &m);
+    let added = guarded(|| populate::<FR::Error>(&mut b, q, &m));
+    match added {
+        Err(p) => return vec![format!("add: panic: {p}")],
+        Ok(Err((class, stage))) => {
+            st.inc(&format!("add_refused:{stage}"));
+            if !(class == "unsupported" && x["k"] == "unsupported") {
+                errs.push(format!("{stage} refused with {class}; the specification says {}", x["k"]));
+            }
+            st.sigs.insert(format!("add|{}|{}|{}|{stage}", q["regime"], q["pv"], x["shape"]));
+            // no anchored builder exists for a request that cannot be expressed; the deferred one must refuse as well
+            return errs;
+        }
+        Ok(Ok(())) => {}
+    }
+
+    // ---- get_fee -----------------------------------------------------------------------------
+    let fee = guarded(|| b.get_fee(rule));
+    match &fee {
+        Err(p) => errs.push(format!("get_fee: panic: {p}")),
+        Ok(Err(e)) => errs.push(format!("get_fee failed: {e:?}")),
+        Ok(Ok(f)) => {
+            if x["addable"].as_bool().unwrap() && u64::from(*f) as i64 != x["fee"].as_i64().unwrap() {
+                errs.push(format!("get_fee = {}, the fee of the padded shape is {}", u64::from(*f), x["fee"]));
+            }
+        }
+    }
+
+    // ---- build_for_pczt ----------------------------------------------------------------------
+    let prng = ChaCha20Rng::seed_from_u64(rng.next_u64());
+    let (o, res) = outcome_of(guarded(|| b.build_for_pczt(prng, rule)));
+    st.inc(&format!("pczt:{}", o["k"].as_str().unwrap().split(':').next().unwrap()));
+    if let Some(e) = judge_outcome(x, "pczt", &o) {
+        errs.push(e);
+    } else if let Some(res) = res {
+        errs.extend(check_parts(q, x, &m, &res.pczt_parts, false));
+        match guarded(|| Creator::build_from_parts(res.pczt_parts)) {
+            Ok(Some(p)) => errs.extend(check_pczt(x, &m, &p, "pczt")),
+            other => errs.push(format!("Creator::build_from_parts: {:?}", other.map(|o| o.is_some()))),
+        }
+    }
+    st.sigs.insert(format!("pczt|{}|{}|{}|{}|{}|{}", q["regime"], x["ver"], x["shape"], o["k"], q["opad"], q["ipad"]));
+
+    // ---- build -------------------------------------------------------------------------------
+    let sh = &x["shape"];
+    let shielded_actions = sh["ao"].as_u64().unwrap() + sh["ai"].as_u64().unwrap();
+    let refusal_expected = !justified(x, "build").is_empty();
+    let real = opts.real_proofs.contains(&idx);
+    if shielded_actions == 0 || refusal_expected || real {
+        let mut b = new_builder(q, &m);
+        match guarded(|| populate::<FR::Error>(&mut b, q, &m)) {
+            Ok(Ok(())) => {
+                let set = signing_set(q, &m);
+                let saks = [orchard::keys::SpendAuthorizingKey::from(&m.o_spender.sk), orchard::keys::SpendAuthorizingKey::from(&m.i_spender.sk)];
+                let brng = ChaCha20Rng::seed_from_u64(rng.next_u64());
+                let extsks = [m.s_spender.extsk.clone()];
+                let (o, res) = outcome_of(guarded(|| b.build(&set, &extsks, &saks, brng, &MockSpendProver, &MockOutputProver, rule)));
+                st.inc(&format!("build:{}", o["k"].as_str().unwrap().split(':').next().unwrap()));
+                if let Some(e) = judge_outcome(x, "build", &o) {
+                    errs.push(e);
+                } else if let Some(res) = res {
+                    let vk = (shielded_actions > 0).then(|| verifying_key(m.branch));
+                    if vk.is_some() {
+                        st.inc("build:real_proofs");
+                    }
+                    errs.extend(check_tx(x, &m, res.transaction(), vk));
+                }
+                st.sigs.insert(format!("build|{}|{}|{}|{}|{}", q["regime"], x["ver"], x["shape"], o["k"], q["keys"]));
+            }
+            other => errs.push(format!("second population of the same request differs: {other:?}")),
+        }
+    }
+
+    // ---- DeferredPcztBuilder (anchors deferred, ZIP 374): Orchard/Ironwood-only requests ---------
+    let only_oi = m.tin.is_empty() && m.tout.is_empty() && m.s_spends.is_empty() && m.s_outs.is_empty();
+    if only_oi && q["pv"] == "none" && !q["anch"]["s"].as_bool().unwrap() {
+        errs.extend(run_deferred(q, x, &m, rule, &mut rng, st));
+    }
+    errs
+}
+
+fn run_deferred<FR: FeeRule>(q: &J, x: &J, m: &Mat, rule: &FR, rng: &mut ChaCha20Rng, st: &mut Stats) -> Vec<String>
+where
+    FR::Error: std::fmt::Debug,
+{
+    let mut errs = vec![];
+    let made = guarded(|| {
+        DeferredPcztBuilder::new::<FR::Error>(
+            network(),
+            BlockHeight::from_u32(m.height),
+            padding_of(q["opad"].as_str().unwrap()),
+            padding_of(q["ipad"].as_str().unwrap()),
+        )
+    });
+    let mut d = match made {
+        Err(p) => return vec![format!("deferred: new panicked: {p}")],
+        Ok(Err(e)) => {
+            st.inc("deferred:refused_new");
+            if q["regime"] == "nu63" {
+                errs.push(format!("deferred: new refused at NU6.3: {e:?}"));
+            } else if class_of(&e).0 != "unsupported" {
+                errs.push(format!("deferred: new before NU6.3 failed with {e:?}"));
+            }
+            return errs;
+        }
+        Ok(Ok(d)) => d,
+    };
+    if q["regime"] != "nu63" {
+        return vec!["deferred: a builder with deferred anchors was created before NU6.3".to_string()];
+    }
+    // A required-but-unused bundle is charged by get_fee but not emitted by this builder (reported
+    // separately, see notes/c14-report.md); the rule is compared on the other configurations.
+    let required_unused = |pad: &J, used: bool| pad.as_str().unwrap().starts_with("required") && !used;
+    if required_unused(&q["opad"], !(m.o_spends.is_empty() && m.o_outs.is_empty() && m.o_chg.is_empty()))
+        || required_unused(&q["ipad"], !(m.i_spends.is_empty() && m.i_outs.is_empty()))
+    {
+        st.inc("deferred:skipped_required_unused");
+        return errs;
+    }
+    let added = guarded(|| -> Result<(), BErr<FR::Error>> {
+        for (n, _) in &m.o_spends {
+            d.add_orchard_spend(m.o_spender.fvk.clone(), *n)?;
+        }
+        for o in &m.o_outs {
+            d.add_orchard_output(Some(m.o_spender.fvk.to_ovk(orchard::keys::Scope::External)), o.addr, Zatoshis::from_u64(o.value).unwrap(), o.memo.clone())?;
+        }
+        for o in &m.o_chg {
+            d.add_orchard_change_output(
+                m.o_spender.fvk.clone(),
+                Some(m.o_spender.fvk.to_ovk(orchard::keys::Scope::Internal)),
+                o.addr,
+                Zatoshis::from_u64(o.value).unwrap(),
+                o.memo.clone(),
+            )?;
+        }
+        for (n, _) in &m.i_spends {
+            d.add_ironwood_spend(m.i_spender.fvk.clone(), *n)?;
+        }
+        for o in &m.i_outs {
+            d.add_ironwood_output(Some(m.i_spender.fvk.to_ovk(orchard::keys::Scope::External)), o.addr, Zatoshis::from_u64(o.value).unwrap(), o.memo.clone())?;
+        }
+        Ok(())
+    });
+    match added {
+        Err(p) => return vec![format!("deferred: add panicked: {p}")],
+        Ok(Err(e)) => {
+            st.inc("deferred:add_refused");
+            if !(class_of(&e).0 == "unsupported" && x["k"] == "unsupported") {
+                errs.push(format!("deferred: add refused with {e:?}; the specification says {}", x["k"]));
+            }
+            return errs;
+        }
+        Ok(Ok(())) => {}
+    }
+    match guarded(|| d.get_fee(rule)) {
+        Ok(Ok(f)) if u64::from(f) as i64 == x["fee"].as_i64().unwrap() => {}
+        other => errs.push(format!("deferred: get_fee {other:?}, the fee of the padded shape is {}", x["fee"])),
+    }
+    let prng = ChaCha20Rng::seed_from_u64(rng.next_u64());
+    let (o, res) = outcome_of(guarded(|| d.build_for_pczt(prng, rule)));
+    st.inc(&format!("deferred:{}", o["k"].as_str().unwrap().split(':').next().unwrap()));
+    if let Some(e) = judge_outcome(x, "deferred", &o) {
+        errs.push(e);
+    } else if let Some(res) = res {
+        errs.extend(check_parts(q, x, m, &res.pczt_parts, true));
+        match guarded(|| Creator::build_from_parts(res.pczt_parts)) {
+            Ok(Some(p)) => errs.extend(check_pczt(x, m, &p, "deferred pczt")),
+            other => errs.push(format!("deferred: Creator::build_from_parts: {:?}", other.map(|o| o.is_some()))),
+        }
+    }
+    errs
+}
+
+// =================================================================================================
+// TransparentInputInfo::from_parts: the key / redeem script must hash to the coin's address
+// =================================================================================================
+
+fn coin_variant(name: &str) -> (Vec<u8>, SpendInfo) {
+    let keyset = |tag: u8, n: usize| -> Vec<secp256k1::PublicKey> { (0..n).map(|i| tsk(tag, i as u8).1).collect() };
+    let sh = |k: u8, pks: Vec<secp256k1::PublicKey>| {
+        let redeem = multisig_redeem(k, &pks);
+        (p2sh_script(&redeem), SpendInfo::P2sh { redeem_script: script::FromChain::parse(&script::Code(redeem)).expect("parses") })
+    };
+    match name {
+        "pkhA" => (p2pkh_script(&tsk(0xD0, 0).1), SpendInfo::P2pkh { pubkey: tsk(0xD0, 0).1 }),
+        "pkhB" => (p2pkh_script(&tsk(0xD1, 0).1), SpendInfo::P2pkh { pubkey: tsk(0xD1, 0).1 }),
+        "sh12A" => sh(1, keyset(0xD0, 2)),
+        "sh12B" => sh(1, keyset(0xD1, 2)),
+        "sh23A" => sh(2, keyset(0xD0, 3)),
+        "sh23C" => {
+            let mut k = keyset(0xD0, 3);
+            k.reverse();
+            sh(2, k)
+        }
+        _ => panic!("unknown coin variant {name}"),
+    }
+}
+
+/// table[coin][info] = the specification accepts `info` as the way to spend `coin`.
+fn validator_checks(table: &J) -> (usize, Vec<J>) {
+    let mut bad = vec![];
+    let mut n = 0;
+    for (coin, row) in table.as_object().expect("table") {
+        for (info, want) in row.as_object().expect("row") {
+            let want = want.as_bool().unwrap();
+            let (spk, _) = coin_variant(coin);
+            let (_, spend_info) = coin_variant(info);
+            let txout = TxOut::new(Zatoshis::const_from_u64(70_000), to_script(spk));
+            let utxo = OutPoint::new([0x77; 32], 1);
+            let r1 = guarded(|| TransparentInputInfo::from_parts(utxo.clone(), txout.clone(), spend_info.clone()).is_ok());
+            let r2 = guarded(|| {
+                let mut b = Builder::new(
+                    network(),
+                    BlockHeight::from_u32(40_000),
+                    BuildConfig::Standard {
+                        sapling_anchor: None,
+                        orchard_anchor: None,
+                        ironwood_anchor: None,
+                        orchard_padding: BundlePadding::DEFAULT,
+                        ironwood_padding: BundlePadding::DEFAULT,
+                    },
+                );
+                match &spend_info {
+                    SpendInfo::P2pkh { pubkey } => b.add_transparent_p2pkh_input(*pubkey, utxo.clone(), txout.clone()).is_ok(),
+                    SpendInfo::P2sh { redeem_script } => b.add_transparent_p2sh_input(redeem_script.clone(), utxo.clone(), txout.clone()).is_ok(),
+                }
+            });
+            n += 2;
+            for (api, r) in [("TransparentInputInfo::from_parts", r1), ("Builder::add_transparent_*_input", r2)] {
+                if r != Ok(want) {
+                    bad.push(json!({"kind": "validator", "coin": coin, "info": info, "api": api, "expected_accept": want, "got": format!("{r:?}")}));
+                }
+            }
+        }
+    }
+    (n, bad)
+}
+
+// =================================================================================================
+// main
+// =================================================================================================
+
+fn dispatch(idx: usize, case: &J, opts: &Opts, st: &mut Stats) -> Vec<String> {
+    let r = &case["q"]["rule"];
+    let mut run = || {
+        if r["kind"] == "fixed" {
+            run_case(idx, case, &fixed::FeeRule::non_standard(Zatoshis::from_u64(r["fixed"].as_u64().unwrap()).unwrap()), opts, st)
+        } else {
+            let rule = zip317::FeeRule::non_standard(
+                Zatoshis::from_u64(r["m"].as_u64().unwrap()).unwrap(),
+                r["g"].as_u64().unwrap() as usize,
+                r["pin"].as_u64().unwrap() as usize,
+                r["pout"].as_u64().unwrap() as usize,
+            )
+            .expect("rule parameters");
+            // the standard rule goes through its own constructor
+            if r["m"] == 5000 && r["g"] == 2 && r["pin"] == 150 && r["pout"] == 34 {
+                run_case(idx, case, &zip317::FeeRule::standard(), opts, st)
+            } else {
+                run_case(idx, case, &rule, opts, st)
+            }
+        }
+    };
+    // a panic outside the guarded calls is the harness' own
+    run()
+}
+
+fn mix(seed: u64, i: usize) -> u64 {
+    let mut z = seed.wrapping_add(0x9E37_79B9_7F4A_7C15u64.wrapping_mul(i as u64 + 1));
+    z = (z ^ (z >> 30)).wrapping_mul(0xBF58_476D_1CE4_E5B9);
+    z = (z ^ (z >> 27)).wrapping_mul(0x94D0_49BB_1331_11EB);
+    z ^ (z >> 31)
+}
+
+fn main() {
+    let args: Vec<String> = std::env::args().collect();
+    quiet_panics();
+    let seed = seed_from_env();
+    match args.get(1).map(|s| s.as_str()) {
+        Some("run") => {
+            let cases = read_ndjson(&args[2]);
+            let n_real: usize = args.get(3).and_then(|s| s.parse().ok()).unwrap_or(0);
+            let threads: usize = std::env::var("C14_THREADS").ok().and_then(|s| s.parse().ok()).unwrap_or(8);
+            let table = args.get(4).map(|p| read_ndjson(p).remove(0));
+            // seeded sample of emitted requests with Orchard/Ironwood actions for the build with real proofs,
+            // spread over regimes
+            let mut eligible: Vec<usize> = cases
+                .iter()
+                .enumerate()
+                .filter(|(_, c)| {
+                    let x = &c["x"];
+                    x["k"] == "ok" && x["shape"]["ao"].as_u64().unwrap() + x["shape"]["ai"].as_u64().unwrap() > 0 && x["signOk"] == true
+                        && x["shape"]["ao"].as_u64().unwrap() + x["shape"]["ai"].as_u64().unwrap() <= 4
+                })
+                .map(|(i, _)| i)
+                .collect();
+            eligible.sort_by_key(|i| mix(seed, *i));
+            let mut real_proofs = BTreeSet::new();
+            let mut per_regime: BTreeMap<String, usize> = BTreeMap::new();
+            for i in eligible {
+                let key = format!("{}{}", cases[i]["q"]["regime"], cases[i]["q"]["hsel"]);
+                let c = per_regime.entry(key).or_insert(0);
+                if *c < n_real.div_ceil(4) && real_proofs.len() < n_real {
+                    *c += 1;
+                    real_proofs.insert(i);
+                }
+            }
+            let opts = Opts { seed, real_proofs };
+            let out: Mutex<(Vec<J>, Stats)> = Mutex::new((vec![], Stats::default()));
+            std::thread::scope(|s| {
+                for t in 0..threads {
+                    let (cases, opts, out) = (&cases, &opts, &out);
+                    s.spawn(move || {
+                        let mut st = Stats::default();
+                        let mut bad = vec![];
+                        for (idx, case) in cases.iter().enumerate().filter(|(i, _)| i % threads == t) {
+                            let errs = dispatch(idx, case, opts, &mut st);
+                            if !errs.is_empty() {
+                                st.inc("mismatch");
+                                if bad.len() < 10 {
+                                    bad.push(json!({"kind": "case", "idx": idx, "case": case, "errors": errs}));
+                                }
+                            }
+                        }
+                        let mut g = out.lock().unwrap();
+                        g.0.extend(bad);
+                        for (k, v) in st.counts {
+                            *g.1.counts.entry(k).or_insert(0) += v;
+                        }
+                        g.1.sigs.extend(st.sigs);
+                    });
+                }
+            });
+            let (mut bad, st) = out.into_inner().unwrap();
+            bad.sort_by_key(|b| b["idx"].as_u64());
+            let (vn, vbad) = table.as_ref().map(validator_checks).unwrap_or((0, vec![]));
+            bad.extend(vbad);
+            println!(
+                "{}",
+                json!({"cases": cases.len(), "mismatches": bad, "stats": st.counts, "distinct": st.sigs.len(),
+                       "validator_calls": vn, "real_proof_cases": opts.real_proofs.len()})
+            );
+        }
+        _ => {
+            eprintln!("usage: c14_replay run <cases.ndjson> <real_proof_samples> [<vtable.json>]");
+            std::process::exit(2);
+        }
+    }
+}
